@@ -109,6 +109,8 @@ class SimArray:
 
 
 def _mp_rlock_factory():
+    # creating a process-shared lock allocates a semaphore: it can fail (EMFILE, ENOSPC, ...)
+    simworld.current_kernel().seam("mp.rlock")
     return SimSemRLock(simworld.current_kernel(), "tty_mp_lock")
 
 
